@@ -346,11 +346,6 @@ def s3_init(props=None):
         return None
     spec.new = new
 
-    def lib2(ex_, s, name, pos, kw, node_, star, dstar, _o=spec.lib):
-        if name == 'random.Random':
-            return [(s, ('val', s.alloc('Random')))]
-        return _o(ex_, s, name, pos, kw, node_, star, dstar)
-    spec.lib = lib2
     st.push({'self': selfv, 'bucket': Val.s(fresh('b', Str)), 'key_prefix': Val.s(kp), 'region': NONE, 'transient': B(tr), 'read_only': B(ro),
              'infrequent_access_kb_threshold': NONE, 'sampling_calculator': NONE}, None, (m.name, c, node))
     obl = []; n = 0
@@ -360,6 +355,11 @@ def s3_init(props=None):
         obl.append(Obl('C15/S3TapeCassette.__init__/prefix_normalised_and_flags_stored', ('C15', 'C07', 'C10'), s1,
                        z3.And(z3.BoolVal(oc[0] == 'normal'), got == Val.s(z3.If(z3.Length(kp) > 0, z3.Concat(kp, z3.StringVal('/')), z3.StringVal(''))),
                               s1.rd(selfv, 'read_only') == B(ro), s1.rd(selfv, 'transient') == B(tr)), oc))
+        rn = s1.rd(selfv, '_random')
+        # storage-level sampling is reproducible per cassette: every cassette owns a generator created here from the fixed seed
+        obl.append(Obl('C17/S3TapeCassette.__init__/own_random_stream_from_the_fixed_seed', 'C17', s1,
+                       z3.And(Val.is_ref(rn), Val.addr(rn) > BASE, TYP(Val.addr(rn)) == K('Random'), s1.rd(rn, 'seed') == I(110613),
+                              z3.BoolVal(any(rn.eq(x) for x in s1.g.get('randoms', [])))), oc))
     return [info], obl, {'paths': n, 'forks': ex.forks}
 
 
